@@ -54,7 +54,8 @@ static const char *g_cmpname = "bw";
 static ldb_bloom_t *g_bloom = NULL;
 static ldb_lru_t *g_cache = NULL;
 static int g_structural = 0;
-static int g_verify = 0;   /* read with verify_checksums */
+static int g_verify = 0;
+static int g_nowait = 0;   /* do not wait for background quiescence after each call (crash histories) */   /* read with verify_checksums */
 #define MAXSNAP 64
 static const ldb_snapshot_t *g_snap[MAXSNAP];
 static uint64_t g_dumped[1 << 16]; static int g_ndumped = 0;
@@ -124,27 +125,34 @@ static int wl_versions_apply(ldb_versions_t *vset, ldb_edit_t *edit, ldb_mutex_t
       if (g_ndumped < (1 << 16)) g_dumped[g_ndumped++] = en->meta.number;
     }
   }
-  fprintf(g_bg, "edit ");
-  first = 1;
-  rb_set_each(&edit->deleted_files, it) {
-    const file_entry_t *en = rb_key_ptr(it);
-    fprintf(g_bg, "%sdel:%d:%llu", first ? "" : ",", en->level, (unsigned long long)en->number); first = 0;
-  }
-  if (first) fputc('.', g_bg);
-  fputc(';', g_bg);
-  first = 1;
-  for (i = 0; i < edit->new_files.length; i++) {
-    const meta_entry_t *en = edit->new_files.items[i];
-    fprintf(g_bg, "%sadd:%d:%llu:%llu:", first ? "" : ",", en->level, (unsigned long long)en->meta.number, (unsigned long long)en->meta.file_size); first = 0;
-    print_ikey_parts(g_bg, &en->meta.smallest); fputc(':', g_bg); print_ikey_parts(g_bg, &en->meta.largest);
-  }
-  if (first) fputc('.', g_bg);
   pthread_mutex_unlock(&g_bglock);
-  rc = ldb_versions_apply(vset, edit, mu);
-  pthread_mutex_lock(&g_bglock);
-  fprintf(g_bg, " rc=%d\n", rc);
-  g_structural = 1;
-  pthread_mutex_unlock(&g_bglock);
+  /* the edit line is assembled privately and emitted in one piece after the apply returned (the foreground
+     thread may flush the shared event buffer in between) */
+  { char *ebuf = NULL; size_t elen = 0; FILE *es = open_memstream(&ebuf, &elen);
+    fprintf(es, "edit ");
+    first = 1;
+    rb_set_each(&edit->deleted_files, it) {
+      const file_entry_t *en = rb_key_ptr(it);
+      fprintf(es, "%sdel:%d:%llu", first ? "" : ",", en->level, (unsigned long long)en->number); first = 0;
+    }
+    if (first) fputc('.', es);
+    fputc(';', es);
+    first = 1;
+    for (i = 0; i < edit->new_files.length; i++) {
+      const meta_entry_t *en = edit->new_files.items[i];
+      fprintf(es, "%sadd:%d:%llu:%llu:", first ? "" : ",", en->level, (unsigned long long)en->meta.number, (unsigned long long)en->meta.file_size); first = 0;
+      print_ikey_parts(es, &en->meta.smallest); fputc(':', es); print_ikey_parts(es, &en->meta.largest);
+    }
+    if (first) fputc('.', es);
+    fclose(es);
+    rc = ldb_versions_apply(vset, edit, mu);
+    pthread_mutex_lock(&g_bglock);
+    if (!g_bg) g_bg = open_memstream(&g_bgbuf, &g_bglen);
+    fprintf(g_bg, "%s rc=%d\n", ebuf, rc);
+    g_structural = 1;
+    pthread_mutex_unlock(&g_bglock);
+    free(ebuf);
+  }
   return rc;
 }
 
@@ -225,7 +233,7 @@ static void dump_ver(void) {
 }
 
 static void after_op(void) {
-  wait_quiescent();
+  if (!g_nowait) wait_quiescent();
   flush_bg_events();
   if (g_journal) jprint_new();
   if (g_structural) { g_structural = 0; dump_ver(); }
@@ -389,13 +397,68 @@ static void crash_points(int from, int to, int stride, const char *vars, const c
   g_journal = 0; g_fault_at = -1;
   if (stride < 1) stride = 1;
   g_crng = 88172645463325252ULL ^ (uint64_t)nJ;
-  for (n = from; n <= to; n += stride) {
+  for (n = from; n <= to; n++) {
+    /* cut points: every `stride`-th journal prefix, plus the prefixes that end right after an event that opens or
+       closes a durability window (new log, MANIFEST write/sync, table sync, rename, unlink) -- those are thinned so
+       that about as many of them as stride points are taken */
+    int take = ((n - from) % stride) == 0;
+    if (!take && n >= 1 && n <= nJ) {
+      const jev *e = &J[n - 1]; int hot = 0;
+      if (e->kind == J_CREATE && strstr(e->a, ".log")) hot = 1;
+      else if ((e->kind == J_WRITE || e->kind == J_SYNC) && !strncmp(e->a, "MANIFEST", 8)) hot = 1;
+      else if (e->kind == J_RENAME || e->kind == J_UNLINK) hot = 1;
+      else if (e->kind == J_SYNC && strstr(e->a, ".ldb")) hot = 1;
+      if (hot && stride > 1 && (crnd() % 3) != 0) hot = 0;
+      take = hot;
+    }
+    if (!take) continue;
     for (vi = 0; vars[vi]; vi++) {
       int v = vars[vi] - '0', rc; ldb_t *db2 = NULL; ldb_dbopt_t o2 = g_opt;
       materialise(n, v, imgdir);
       o2.create_if_missing = 1; o2.error_if_exists = 0; o2.info_log = NULL; o2.block_cache = NULL;
       g_first_apply_lognum = -1;
       rc = ldb_open(imgdir, &o2, &db2);
+      if (follow == 2 && rc == LDB_OK && (v == 0 || v == 1) && (crnd() % 2) == 0) {
+        /* nested: journal the recovery of a pristine copy of this image, then crash inside that recovery */
+        char base[1200], work[1200], img2[1200]; jev *J0 = J; int nJ0 = nJ, capJ0 = capJ, printed0 = J_printed; char root0[512]; int m, nJ2; ldb_t *db3 = NULL;
+        ldb_close(db2); db2 = NULL; flush_bg_events_discard();
+        snprintf(base, sizeof(base), "%s.base", imgdir); snprintf(work, sizeof(work), "%s.work", imgdir); snprintf(img2, sizeof(img2), "%s.n2", imgdir);
+        materialise(n, v, base); materialise(n, v, work);
+        snprintf(root0, sizeof(root0), "%s", g_jroot);
+        J = NULL; nJ = 0; capJ = 0; J_printed = 0; snprintf(g_jroot, sizeof(g_jroot), "%s", work); g_journal = 1;
+        rc = ldb_open(work, &o2, &db3);
+        if (rc == LDB_OK) ldb_close(db3);
+        g_journal = 0; flush_bg_events_discard();
+        nJ2 = nJ;
+        /* what recovery found and which logs it created: the file-number counter must move past every log on disk */
+        { char **nm = NULL; int cnt = ldb_get_children(base, &nm), q; int first = 1;
+          printf("recnums %d %d have=", n, v);
+          for (q = 0; q < cnt; q++) { size_t L = strlen(nm[q]); if (L > 4 && !strcmp(nm[q] + L - 4, ".log")) { printf("%s%lu", first ? "" : ",", strtoul(nm[q], NULL, 10)); first = 0; } }
+          if (first) printf(".");
+          if (cnt >= 0) ldb_free_children(nm, cnt);
+          printf(" created="); first = 1;
+          for (q = 0; q < nJ2; q++) if (J[q].kind == J_CREATE && J[q].trunc && strstr(J[q].a, ".log")) { printf("%s%lu", first ? "" : ",", strtoul(J[q].a, NULL, 10)); first = 0; }
+          if (first) printf(".");
+          printf("\n"); }
+        for (m = 1; m <= nJ2; m += 1 + (int)(crnd() % 3)) {
+          int v2 = (int)(crnd() % 2), rc2; ldb_t *db4 = NULL;
+          if (J[m - 1].kind == J_MARK) continue;
+          materialise_from(base, m, v2, img2);
+          g_first_apply_lognum = -1;
+          rc2 = ldb_open(img2, &o2, &db4);
+          printf("crashn %d %d %d %d rc=%d", n, v, m, v2, rc2);
+          if (rc2 == LDB_OK) { printf(" lognum=%lld lastseq=%llu ", g_first_apply_lognum >= 0 ? g_first_apply_lognum : (long long)db4->versions->log_number, (unsigned long long)db4->versions->last_sequence); dump_internal(db4); ldb_close(db4); }
+          fputc('\n', stdout);
+          flush_bg_events_discard();
+        }
+        { int q; for (q = 0; q < nJ; q++) free(J[q].data); free(J); }
+        J = J0; nJ = nJ0; capJ = capJ0; J_printed = printed0; snprintf(g_jroot, sizeof(g_jroot), "%s", root0);
+        { char cmd[4000]; snprintf(cmd, sizeof(cmd), "rm -rf '%s' '%s' '%s'", base, work, img2); if (system(cmd) != 0) { /* ignore */ } }
+        /* reopen the first-level image for the ordinary checks below */
+        materialise(n, v, imgdir);
+        g_first_apply_lognum = -1;
+        rc = ldb_open(imgdir, &o2, &db2);
+      }
       printf("crash %d %d rc=%d", n, v, rc);
       if (rc == LDB_OK) {
         printf(" lognum=%lld lastseq=%llu ", g_first_apply_lognum >= 0 ? g_first_apply_lognum : (long long)db2->versions->log_number, (unsigned long long)db2->versions->last_sequence);
@@ -407,6 +470,30 @@ static void crash_points(int from, int to, int stride, const char *vars, const c
             snprintf(kb, sizeof(kb), "zz-follow-%d", k); snprintf(vb, sizeof(vb), "f%d-%d-%d", n, v, k);
             ks = ldb_string(kb); vs = ldb_string(vb);
             wrc = ldb_put(db2, &ks, &vs, &wo);
+          }
+          /* writes made after recovery must take precedence over recovered data: overwrite the newest recovered keys */
+          { ldb_iter_t *it = ldb_test_internal_iterator(db2); static uint8_t okey[8][256]; static size_t olen[8]; static uint64_t oseq[8]; int no = 0, j;
+            for (j = 0; j < 8; j++) { olen[j] = 0; oseq[j] = 0; }
+            for (ldb_iter_first(it); ldb_iter_valid(it); ldb_iter_next(it)) {
+              ldb_slice_t kk = ldb_iter_key(it); uint64_t tr, sq; int slot = -1;
+              if (kk.size < 8 || kk.size - 8 > 250) continue;
+              tr = ldb_fixed64_decode((const uint8_t *)kk.data + kk.size - 8); sq = tr >> 8;
+              if (kk.size - 8 >= 10 && !memcmp(kk.data, "zz-follow-", 10)) continue;
+              for (j = 0; j < no; j++) if (olen[j] == kk.size - 8 && !memcmp(okey[j], kk.data, olen[j])) { slot = -2; break; }
+              if (slot == -2) continue;       /* internal iterator yields the newest version of a key first */
+              if (no < 8) slot = no++; else { int m = 0; for (j = 1; j < 8; j++) if (oseq[j] < oseq[m]) m = j; if (oseq[m] < sq) slot = m; }
+              if (slot >= 0) { memcpy(okey[slot], kk.data, kk.size - 8); olen[slot] = kk.size - 8; oseq[slot] = sq; }
+            }
+            ldb_iter_destroy(it);
+            printf(" over=");
+            for (j = 0; j < no && wrc == 0; j++) {
+              char vb[64]; ldb_slice_t ks, vs; ldb_writeopt_t wo = *ldb_writeopt_default; wo.sync = (j % 2);
+              snprintf(vb, sizeof(vb), "o%d-%d-%d", n, v, j);
+              ks = ldb_slice(okey[j], olen[j]); vs = ldb_string(vb);
+              wrc = ldb_put(db2, &ks, &vs, &wo);
+              printf("%s", j ? "," : ""); print_hex(stdout, okey[j], olen[j]);
+            }
+            if (no == 0) printf(".");
           }
           ldb_close(db2); db2 = NULL;
           fputc('\n', stdout);
@@ -561,6 +648,9 @@ static void handle(char *line) {
       ldb_iter_destroy(it);
     }
     after_op();
+  } else if (nf == 2 && !strcmp(f[0], "nowait")) {
+    g_nowait = atoi(f[1]); g_slow_tables = g_nowait;
+    printf("loosemode %d\n", g_nowait);
   } else if (nf == 2 && !strcmp(f[0], "verify")) {
     g_verify = atoi(f[1]);
     printf("verify %d\n", g_verify);
@@ -616,7 +706,7 @@ static void handle(char *line) {
       fputc('\n', stdout); }
   } else if ((nf == 4 || nf == 5) && !strcmp(f[0], "crashscan")) {
     if (g_db) { printf("err crashscan needs a closed db\n"); return; }
-    crash_points(1, nJ, atoi(f[1]), f[2], f[3], nf == 5);
+    crash_points(1, nJ, atoi(f[1]), f[2], f[3], nf == 5 ? (!strcmp(f[4], "nested") ? 2 : 1) : 0);
   } else if ((nf == 4 || nf == 5) && !strcmp(f[0], "crashat")) {
     /* crashat <n|-1> <variants> <imgdir> [follow]: one journal prefix (-1 = everything so far); the database may stay open */
     int n = atoi(f[1]); if (n < 0 || n > nJ) n = nJ;
